@@ -487,6 +487,12 @@ impl CommandAnalyzer {
             return;
         }
 
+        // Handle arrays [T; N] and slices [T]
+        if let Some(element) = type_resolver::array_element_type(rust_type) {
+            self.extract_type_names_recursive(element, type_names);
+            return;
+        }
+
         // Handle references
         if rust_type.starts_with('&') {
             let without_ref = rust_type.trim_start_matches('&');
